@@ -397,10 +397,12 @@ class C20(Prop):
     components = {'real': ['circus.stream.file_stream.FileStream (all of it)',
                            'the file system (scratch directory)'],
                   'stub': ['the clock (FileStream.now -> virtual time)']}
-    assumptions = ['disk faults: one transient rename / remove error inside '
-                   'a rollover in 8 % of the random cases (the failed write '
-                   'is not owed; contiguity and later writes are); no torn '
-                   'or short writes',
+    assumptions = ['disk faults: in a tenth of the random cases one '
+                   'transient error - a rename / remove inside a rollover '
+                   '(the failed write is not owed; contiguity and later '
+                   'writes are) or a failing flush (the chunk may reach the '
+                   'disk later or never, once at most); no torn or short '
+                   'writes',
                    'chunks are valid UTF-8; the file encoding is UTF-8',
                    'a clean batch is evidence for the sampled histories, not '
                    'a proof']
